@@ -310,6 +310,7 @@ const MAX_NESTING: usize = 256;
 fn nested_too_deep(line: &str) -> bool {
     let mut depth = 0usize;
     let mut run = 0usize;
+    let mut chain = 0usize;
     let mut in_string = false;
     let mut previous = ' ';
     for c in line.chars() {
@@ -332,7 +333,13 @@ fn nested_too_deep(line: &str) -> bool {
                 ' ' | '\t' => {}
                 _ => run = 0,
             }
-            if depth > MAX_NESTING || run > MAX_NESTING {
+            // a chain of binary operators nests once per operator as well
+            match c {
+                ',' => chain = 0,
+                '+' | '-' | '*' | '/' | '%' | '&' | '|' | '^' | '<' | '>' | '=' => chain += 1,
+                _ => {}
+            }
+            if depth > MAX_NESTING || run > MAX_NESTING || chain > 2 * MAX_NESTING {
                 return true;
             }
         }
